@@ -26,6 +26,12 @@ class C03(Check):
         n = 250 if self.tier == "quick" else 3000
         runs = {"wf%d" % k: random_run(rng, variants=ALL_VARIANTS, ltwt=rng.choice([("u", "u"), ("u", "u"), ("u", "r"), ("u", "l"), ("i", "u"), ("s", "u")]))
                 for k in range(n)}
+        # degenerate supports: user-supplied affinities of extreme scale truncate whole matrices to zero
+        for k, rc in enumerate(runs.values()):
+            if rc.init == "f" and k % 4 == 0:
+                sc = rng.choice([1e9, 1e6, 1e3, 1e-9, 1e12])
+                rc.aff = [x * sc for x in rc.aff]
+                self.dist("extreme affinity scale")
         io, mo = self.correspond("run", [rc.line(c) for c, rc in runs.items()])
         for cid, rc in runs.items():
             o = io.get(cid)
@@ -368,7 +374,7 @@ class C07(Check):
                 # undirected: the in-membership argument is returned as it was
                 for pi, p in enumerate(priors):
                     o = io.get("%s.p%d" % (k, pi))
-                    if o and "v" in o and any(t != hexf(p) for t in o["v"]):
+                    if o and "v" in o and (len(o["v"]) != len(o.get("labels", [])) * rc.K or any(t != hexf(p) for t in o["v"])):
                         self.violate("v-touched", "undirected run modified the in-membership argument", dict(rc.describe(), prior=p))
                         break
         self.sample({"history": [l.split(" ")[0] for l in lines[:12]], "priors": [str(p) for p in priors]})
@@ -610,7 +616,8 @@ class C11(Check):
             if diff:
                 self.violate("orientation-dependent", "reversing %d records changes %s" % (nrev, diff),
                              {"original": a.describe(), "reversed": b.describe(), "case_a": a.line("a"), "case_b": b.line("b")})
-            if any(t != hexf(a.prior) for t in oa.get("v", [])):
+            nk = len(oa.get("labels", [])) * a.K
+            if len(oa.get("v", [])) != nk or any(t != hexf(a.prior) for t in oa.get("v", [])):
                 self.violate("v-touched", "undirected run modified the in-membership argument", dict(a.describe(), case=a.line("replay")))
             self.dist(a.variant())
         # symmetric affinity from the random start (general model)
